@@ -153,9 +153,14 @@ type plan struct {
 	// Stale: address spaces were assigned after construction without refreshing the cached types
 	// (emit.ModuleWith(m, true)): the caches of such globals, functions and allocas still say addrspace 0.
 	Stale bool `json:",omitempty"`
+	// LateAS: the address spaces of globals and functions were assigned after everything else was built, so
+	// aliases (and whatever else derives a type from them) cached address space 0
+	LateAS bool `json:",omitempty"`
 	// MDRotate: the metadata definitions are listed in another order than that of their IDs (rotated by
 	// MDRotate positions; 0 = as built): the API lets a client list them in any order.
 	MDRotate int `json:",omitempty"`
+	// Recipe: the module is built from this description (TestAssignedAfterConstruction), not from the text
+	Recipe *lateRecipe `json:",omitempty"`
 }
 
 // rotateMDs lists the metadata definitions of m in an order that is not the order of their IDs.
@@ -167,6 +172,23 @@ func rotateMDs(m *ir.Module, k int) {
 }
 
 // unprint takes a parsed module back to the state of one built through the API and never printed.
+// staleAliases takes the aliases of a parsed module back to what a construction with late address spaces
+// leaves: the cached type of an alias of a global or function says address space 0.
+func staleAliases(m *ir.Module) {
+	for _, a := range m.Aliases {
+		as := types.AddrSpace(0)
+		switch x := a.Aliasee.(type) {
+		case *ir.Global:
+			as = x.AddrSpace
+		case *ir.Func:
+			as = x.AddrSpace
+		}
+		if as != 0 && a.Typ != nil {
+			a.Typ = types.NewPointer(a.Typ.ElemType)
+		}
+	}
+}
+
 func unprint(m *ir.Module, unnumber []int, stale bool) {
 	if stale {
 		for _, g := range m.Globals {
@@ -460,6 +482,16 @@ func TestReplay(t *testing.T) {
 		var pl plan
 		if json.Unmarshal([]byte(text[7:nl]), &pl) == nil {
 			for rep := 0; rep < 30; rep++ {
+				if pl.Recipe != nil {
+					checkCaseWith(t, "Replay", text[nl+1:], pl, func() *ir.Module {
+						var m *ir.Module
+						if p := lx.Guard(func() { m = pl.Recipe.build() }); p != nil {
+							return nil
+						}
+						return m
+					})
+					continue
+				}
 				if pl.Constructed {
 					checkCaseWith(t, "Replay", text[nl+1:], pl, func() *ir.Module {
 						m, err, p := lx.Parse(text[nl+1:])
@@ -467,6 +499,9 @@ func TestReplay(t *testing.T) {
 							return nil
 						}
 						unprint(m, pl.Unnumber, pl.Stale)
+						if pl.LateAS {
+							staleAliases(m)
+						}
 						rotateMDs(m, pl.MDRotate)
 						return m
 					})
@@ -506,6 +541,7 @@ func TestConstructedModules(t *testing.T) {
 		am_.Order = nil
 		// one case in three uses the API naively: address spaces assigned after construction, cached types left as they were
 		stale := rapid.IntRange(0, 2).Draw(rt, "staleTypes") == 0
+		lateAS := stale && rapid.Bool().Draw(rt, "lateAddrSpaces")
 		unnumber := map[int]bool{}
 		var unl []int
 		for i := range am_.MDs {
@@ -521,7 +557,7 @@ func TestConstructedModules(t *testing.T) {
 		}
 		mk := func() *ir.Module {
 			var m *ir.Module
-			if p := lx.Guard(func() { m, _ = emit.ModuleWith(am_, stale) }); p != nil {
+			if p := lx.Guard(func() { m, _ = emit.ModuleWithLate(am_, stale, lateAS) }); p != nil {
 				return nil
 			}
 			for i, d := range m.MetadataDefs {
@@ -533,7 +569,7 @@ func TestConstructedModules(t *testing.T) {
 			return m
 		}
 		pl := genPlan(rt)
-		pl.Constructed, pl.Unnumber, pl.Stale, pl.MDRotate = true, unl, stale, mdRotate
+		pl.Constructed, pl.Unnumber, pl.Stale, pl.MDRotate, pl.LateAS = true, unl, stale, mdRotate, lateAS
 		// the never-printed state is what a constructed module adds: start there three times out of four
 		if pl.Printed && rapid.IntRange(0, 1).Draw(rt, "unprinted") == 0 {
 			pl.Printed = false
@@ -554,6 +590,7 @@ func TestConstructedModules(t *testing.T) {
 		hx.NonTrivial(fmt.Sprintf("%v|%v|%s", pl, unnumber, am_.Text()))
 		hx.Hist(fmt.Sprintf("constructed/start_printed/%v", pl.Printed))
 		hx.Hist(fmt.Sprintf("constructed/stale_cached_types/%v", stale))
+		hx.Hist(fmt.Sprintf("constructed/late_address_spaces/%v", lateAS))
 		hx.Hist(fmt.Sprintf("constructed/never_printed_with_unnumbered_metadata/%v", !pl.Printed && len(unl) > 0))
 	})
 }
